@@ -38,6 +38,8 @@ def gen_plan(D, max_cmds=4, horizon=40, kinds=CMD_KINDS, weights=None):
             c['state'] = D.choice(['RUNNING', 'PAUSED'])
         elif k == 'revive':
             c['state'] = D.choice(['SUCCESS', 'ERROR', 'CANCELLED'])
+        elif k == 'lose_cas':
+            c['state'] = D.choice(['CANCELLED', 'ERROR', 'SUCCESS'])
         elif k == 'orphan_update':
             c['pause_first'] = D.bool(0.4)
             c['then_result'] = D.bool(0.6)
@@ -158,6 +160,19 @@ class History(object):
             else:
                 res = sim.ml_actions.Result(cancel=True)
             r = sim.call(cl.on_action_complete, a['id'], res)
+        elif k == 'lose_cas':
+            # fault below the transaction granularity: the next completion
+            # of the root execution loses its compare-and-swap against a
+            # concurrent operator stop (see sim.arm_cas_loss)
+            roots = [w for w in wfs if w['task_execution_id'] is None
+                     and w['state'] in ('RUNNING', 'PAUSED')]
+            if not roots:
+                return None
+            w = roots[0]
+            rec['target'] = ('wf', w['id'], w['name'], w['state'])
+            rec['state'] = c['state']
+            sim.arm_cas_loss(w['id'], c['state'], 'foreign-stop')
+            r = ('ok', None)
         elif k == 'orphan_update':
             # macro: an action that is still live although its task already
             # reached a final state (timed out, cancelled): external update
